@@ -328,6 +328,19 @@ def build_driver():
 
 
 # ------------------------------------------------------------------ running cases
+def _big_stack():
+    """The extracted model is not tail-recursive and counts fuel in unary: runs of 10^5 cycles need more than the
+    default 8 MiB of stack.  (The implementation under test is not affected: hclv handles each case on the main
+    thread with whatever stack it gets; the real binary is started elsewhere.)"""
+    import resource
+    try:
+        soft, hard = resource.getrlimit(resource.RLIMIT_STACK)
+        want = 4 << 30
+        resource.setrlimit(resource.RLIMIT_STACK, (want if hard == resource.RLIM_INFINITY else min(want, hard), hard))
+    except (ValueError, OSError):
+        pass
+
+
 def hexs(s):
     if isinstance(s, str):
         s = s.encode("utf-8")
@@ -384,7 +397,7 @@ def run_cases(binary, lines, shards=None, timeout=None, restarts=None):
         failures = 0
         while pending:
             p = subprocess.Popen([binary], stdin=subprocess.PIPE, stdout=subprocess.PIPE,
-                                 stderr=subprocess.DEVNULL, text=True, errors="replace")
+                                 stderr=subprocess.DEVNULL, text=True, errors="replace", preexec_fn=_big_stack)
             hung = False
             try:
                 out, _ = p.communicate("\n".join(pending) + "\n", timeout=timeout)
